@@ -151,9 +151,60 @@ def work_c(T):
     return vio, n, 0
 
 
+def work_nested(arg):
+    """(d) purity in nested trees: W (unchecked wrapper) > Q (checked, type T) > opaque children.  For every word w
+    (length <= 2 over the reduced alphabet) and every single mutation m of Q (remove each child, add each of the first
+    symbols, replace the first child, change the value of the first child): serialise W, apply m, serialise W - the
+    second text must equal that of the same tree mutated WITHOUT the interposed serialisation (also when the
+    interposed call was made on Q or on the leaf instead of W)."""
+    T, tier = arg
+    vio = []
+    n = 0
+    sigma = explore.reduced_alphabet(T)
+    name = impl.REP[T]
+    wcls = impl.class_for('credit')
+    words = [()] + [(a,) for a in sigma] + [(a, b) for a in sigma[:6] for b in sigma[:6]]
+
+    def make(w):
+        W = wcls(xsd_check=False)
+        st = impl.State(impl.fresh(T))
+        W.add_child(st.el)
+        for a in w:
+            impl.apply(st, ('A', a))
+        return W, st
+
+    for w in words:
+        W0, st0 = make(w)
+        if not all(o.ok for o in st0.outcomes):
+            continue
+        muts = [('R', i) for i in st0.model] + [('A', a) for a in sigma[:3]]
+        if st0.model:
+            muts.append(('P', st0.model[0], st0.made[st0.model[0]].name))
+        for m in muts:
+            Wb, stb = make(w)
+            ob = impl.apply(stb, m)
+            want = impl.serialise(Wb)
+            for who in ('wrapper', 'element', 'leaf'):
+                if who == 'leaf' and not st0.model:
+                    continue
+                Wa, sta = make(w)
+                tgt = Wa if who == 'wrapper' else (sta.el if who == 'element' else sta.made[sta.model[0]])
+                impl.call(tgt.to_string)
+                oa = impl.apply(sta, m)
+                got = impl.serialise(Wa)
+                n += 1
+                if oa.ok != ob.ok or got[:2] != want[:2]:
+                    vio.append({'scope': T, 'kind': 'serialisation-side-effect',
+                                'key': [list(w), list(m), 'nested', who],
+                                'observed': [list(got[:2])[1][:300] if got[0] == 'ok' else list(got[:3]),
+                                             list(want[:2])[1][:300] if want[0] == 'ok' else list(want[:3])]})
+    return vio, n
+
+
 def run(tier):
     from mc import obscheck  # noqa: F401
     run_ = core.Run('C16', tier)
+    r1 = explore.r1_prepare()
     guards = []
     hs = hosts()
     tasks = [(hs[i:i + CHUNK], MAXLEN[tier]) for i in range(0, len(hs), CHUNK)]
@@ -168,6 +219,10 @@ def run(tier):
         run_.add_violations(vio)
         nsub += n
         skipped_min += sk
+    nnested = 0
+    for vio, n in core.pmap(work_nested, [(T, tier) for T in impl.TYPES]):
+        run_.add_violations(vio)
+        nnested += n
     specs = [explore.Spec(T, 'ser', BFS_BUDGET[tier], 'C16b') for T in impl.TYPES]
     res = explore.run_bfs(specs, structcheck.FACTORIES)
     tot = collections.Counter()
@@ -193,11 +248,11 @@ def run(tier):
     cov = {'states': tot['states'], 'transitions': tot['transitions'] + oc['accepted'] + nsub,
            'traces_validated_against_impl': tot['transitions'] + oc['accepted'] + nsub,
            'escaping': {'hosts': len(hs), 'strings': ns, 'offers': len(hs) * ns, **dict(oc)},
-           'subtrees_compared': nsub, 'minimal_elements_not_buildable': skipped_min,
+           'subtrees_compared': nsub, 'nested_serialise_mutate_serialise_runs': nnested, 'minimal_elements_not_buildable': skipped_min,
            'bfs_counters': dict(ost), 'per_type': per_type,
            'samples': [{'host': list(hs[0]), 'string': '<&'}, {'host': list(hs[-1]), 'string': ']]>♭'},
                        {'type': 'note', 'history': [['A', 'pitch'], ['S', False], ['A', 'duration']]}],
-           'exhaustive': True,
+           'exhaustive': True, 'r1_check': r1,
            'rule': '(a) all strings of length <= %d over the alphabet x all text/attribute hosts; (b) BFS with '
                    'to_string on element and children as operations, budget %d; (c) minimal elements of all 94 types'
                    % (MAXLEN[tier], BFS_BUDGET[tier])}
@@ -205,6 +260,10 @@ def run(tier):
 
 
 def replay(rec):
+    if len(rec.get('key', [])) == 4 and rec['key'][2] == 'nested':
+        vio, n = work_nested((rec['scope'], 'quick'))
+        hit = [v for v in vio if core.jkey(v['key']) == core.jkey(rec['key'])]
+        return {'reproduced': bool(hit), 'observed': hit[:1]}
     if rec['kind'] in ('serialisation-side-effect',) or (rec['kind'] == 'nondeterministic' and 'trace' in rec):
         from mc import obscheck  # noqa: F401
         return structcheck.replay_struct(rec, 'C16b')
